@@ -437,3 +437,83 @@ pub fn luma(ctx: &Ctx, total: &mut Collector) {
         total.merge(c);
     }
 }
+
+// ---------------------------------------------------------------------------------------
+// the public aliases name the order their documentation says (type identity + a byte-position probe)
+
+pub fn aliases(ctx: &Ctx, total: &mut Collector) {
+    use core::any::TypeId;
+    use palette::luma::{PackedAluma, PackedLumaa};
+    use palette::rgb::{PackedAbgr, PackedArgb, PackedBgra, PackedRgba};
+    let sub = "packed-aliases";
+    if !ctx.wants(sub) {
+        return;
+    }
+    let h16 = |x: u16| format!("0x{:04x}", x);
+    let mut c = Collector::new();
+    let mut n = 0u64;
+    // (alias name, alias type id, Packed<documented order> type id) for the default and one other storage type
+    let ids: Vec<(&str, TypeId, TypeId)> = vec![
+        ("rgb::PackedRgba<u32>", TypeId::of::<PackedRgba>(), TypeId::of::<Packed<palette::rgb::channels::Rgba, u32>>()),
+        ("rgb::PackedArgb<u32>", TypeId::of::<PackedArgb>(), TypeId::of::<Packed<palette::rgb::channels::Argb, u32>>()),
+        ("rgb::PackedBgra<u32>", TypeId::of::<PackedBgra>(), TypeId::of::<Packed<palette::rgb::channels::Bgra, u32>>()),
+        ("rgb::PackedAbgr<u32>", TypeId::of::<PackedAbgr>(), TypeId::of::<Packed<palette::rgb::channels::Abgr, u32>>()),
+        ("rgb::PackedRgba<[u8;4]>", TypeId::of::<PackedRgba<[u8; 4]>>(), TypeId::of::<Packed<palette::rgb::channels::Rgba, [u8; 4]>>()),
+        ("rgb::PackedArgb<[u8;4]>", TypeId::of::<PackedArgb<[u8; 4]>>(), TypeId::of::<Packed<palette::rgb::channels::Argb, [u8; 4]>>()),
+        ("rgb::PackedBgra<[u8;4]>", TypeId::of::<PackedBgra<[u8; 4]>>(), TypeId::of::<Packed<palette::rgb::channels::Bgra, [u8; 4]>>()),
+        ("rgb::PackedAbgr<[u8;4]>", TypeId::of::<PackedAbgr<[u8; 4]>>(), TypeId::of::<Packed<palette::rgb::channels::Abgr, [u8; 4]>>()),
+        ("luma::PackedLumaa<u16>", TypeId::of::<PackedLumaa>(), TypeId::of::<Packed<palette::luma::channels::La, u16>>()),
+        ("luma::PackedAluma<u16>", TypeId::of::<PackedAluma>(), TypeId::of::<Packed<palette::luma::channels::Al, u16>>()),
+        ("luma::PackedLumaa<[u8;2]>", TypeId::of::<PackedLumaa<[u8; 2]>>(), TypeId::of::<Packed<palette::luma::channels::La, [u8; 2]>>()),
+        ("luma::PackedAluma<[u8;2]>", TypeId::of::<PackedAluma<[u8; 2]>>(), TypeId::of::<Packed<palette::luma::channels::Al, [u8; 2]>>()),
+    ];
+    for (name, a, b) in &ids {
+        n += 1;
+        if a != b {
+            c.violation(&format!("C12/packed-aliases/{}/type", name), 1.0, || json!({"sub": "packed-aliases", "input": name, "observed": "alias is another type", "expected": "Packed<the order named by the alias, P>"}));
+        }
+    }
+    // byte positions through the aliases, every channel distinct: 0xRRGGBBAA etc. as documented
+    let col = Srgba::<u8>::new(0x11, 0x22, 0x33, 0x44);
+    let probes: Vec<(&str, u32, u32)> = vec![
+        ("rgb::PackedRgba", PackedRgba::pack(col).color, 0x1122_3344),
+        ("rgb::PackedArgb", PackedArgb::pack(col).color, 0x4411_2233),
+        ("rgb::PackedBgra", PackedBgra::pack(col).color, 0x3322_1144),
+        ("rgb::PackedAbgr", PackedAbgr::pack(col).color, 0x4433_2211),
+    ];
+    for (name, got, want) in &probes {
+        n += 2;
+        if got != want {
+            c.violation(&format!("C12/packed-aliases/{}/pack", name), 1.0, || json!({"sub": "packed-aliases", "input": "Srgba(0x11, 0x22, 0x33, 0x44)", "alias": name, "observed": h32(*got), "expected": h32(*want)}));
+        }
+    }
+    let un: Vec<(&str, Srgba<u8>)> = vec![
+        ("rgb::PackedRgba", PackedRgba::from(0x1122_3344u32).unpack()),
+        ("rgb::PackedArgb", PackedArgb::from(0x4411_2233u32).unpack()),
+        ("rgb::PackedBgra", PackedBgra::from(0x3322_1144u32).unpack()),
+        ("rgb::PackedAbgr", PackedAbgr::from(0x4433_2211u32).unpack()),
+    ];
+    for (name, got) in &un {
+        if *got != col {
+            c.violation(&format!("C12/packed-aliases/{}/unpack", name), 1.0, || json!({"sub": "packed-aliases", "alias": name, "input": "the documented layout of Srgba(0x11, 0x22, 0x33, 0x44)", "observed": show4(got), "expected": show4(&col)}));
+        }
+    }
+    let la = SrgbLumaa::<u8>::new(0x60, 0xc3);
+    let lp: Vec<(&str, u16, u16)> = vec![("luma::PackedLumaa", PackedLumaa::pack(la).color, 0x60c3), ("luma::PackedAluma", PackedAluma::pack(la).color, 0xc360)];
+    for (name, got, want) in &lp {
+        n += 2;
+        if got != want {
+            c.violation(&format!("C12/packed-aliases/{}/pack", name), 1.0, || json!({"sub": "packed-aliases", "input": "SrgbLumaa(0x60, 0xc3)", "alias": name, "observed": h16(*got), "expected": h16(*want)}));
+        }
+    }
+    let lu: Vec<(&str, SrgbLumaa<u8>)> = vec![("luma::PackedLumaa", PackedLumaa::from(0x60c3u16).unpack()), ("luma::PackedAluma", PackedAluma::from(0xc360u16).unpack())];
+    for (name, got) in &lu {
+        if *got != la {
+            c.violation(&format!("C12/packed-aliases/{}/unpack", name), 1.0, || json!({"sub": "packed-aliases", "alias": name, "input": "the documented layout of SrgbLumaa(0x60, 0xc3)", "observed": [got.luma, got.alpha], "expected": [la.luma, la.alpha]}));
+        }
+    }
+    c.add(sub, ids.len() as u64 + 6, n, n, ids.len() as u64 + 6);
+    c.outcome(pv::fnv(&probes.iter().flat_map(|p| p.1.to_be_bytes()).collect::<Vec<u8>>()));
+    total.merge(c);
+    total.exhaustive(sub, true, "the six public aliases (rgb::PackedRgba/Argb/Bgra/Abgr, luma::PackedLumaa/Aluma) x 2 storage types: type identity with Packed<the named order, P>, and pack/unpack of an all-distinct colour against the documented byte layout (the orders themselves are covered exhaustively by packed/* and packed-luma/*)");
+}
